@@ -31,7 +31,7 @@ import (
 //	kresize N w h                           Resize + wait for the encoder               => "cw ch" | "cw ch noencode" | panic
 //	simg N wPix hPix / sresize N w h        the same for vx.NewSixel (ids are shared with kitty images)
 //	sdraw N col row ww wh                   sixel.Draw(Window().New(col,row,ww,wh)): not drawn if larger than the window
-//	kdraw N col row                         img.Draw(Window().New(col,row,-1,-1))
+//	kdraw N col row [ww wh]                 img.Draw(Window().New(col,row,ww,wh)), default -1,-1; not placed if larger than the window (F120 repaired)
 //	kclear                                  Window().Clear()
 //	krender | krefresh                      Render() / Refresh(); graphics sequences parsed from the console output
 //	   placement ops => [D=.. W=.. U=.. ]N=.. L=.. R=0|1   (deleted, written, uploaded; next list, last list, refresh flag)
@@ -418,7 +418,16 @@ func (s *session) execOp(f []string) (string, bool) {
 		if len(a) == 3 {
 			a = append(a, -1, -1)
 		}
-		if p, _ := hx.Guard(func() { s.imgs[a[0]].Draw(s.kvx.Window().New(a[1], a[2], a[3], a[4])) }); p {
+		if p, _ := hx.Guard(func() {
+			win := s.kvx.Window().New(a[1], a[2], a[3], a[4])
+			iw, ih := s.imgs[a[0]].CellSize()
+			if ww, wh := win.Size(); iw > ww || ih > wh {
+				s.r.Count("kitty-draw-into-too-small-window")
+			} else {
+				s.r.Count("kitty-draw-into-fitting-window")
+			}
+			s.imgs[a[0]].Draw(win)
+		}); p {
 			return "panic", true
 		}
 		return s.snap(), true
@@ -845,6 +854,9 @@ func genPlacements(r *hx.Run, rng *gen.Rng, do func(string) string) {
 				case 1, 2, 3: // a window of its own, sometimes smaller than the image (F120)
 					p.ww, p.wh = rng.Range(2, 9), rng.Range(1, 6)
 					r.Count("kitty-small-window")
+				case 4, 5, 6: // round 3: windows round the image's own size, empty ones included
+					p.ww, p.wh = rng.Range(0, 5), rng.Range(0, 3)
+					r.Count("kitty-tight-window")
 				}
 			}
 			if sixel[i] {
